@@ -7,6 +7,7 @@ package main
 //   C03: after every operation, no account other than the signer lost coins or recorded claims.
 
 import (
+	"regexp"
 	"fmt"
 	"os"
 	"sort"
@@ -78,13 +79,27 @@ func (e *c34) claims(ctx sdk.Context, a sdk.AccAddress) sdk.Coins {
 	return c
 }
 
+// coins + recorded claims per account. Pool share tokens (v<pool>/<denom>, minted 1:1 on delegation; no slashing in
+// these histories) are counted under the staked denom, so that an auto-compound the owner opted into — unclaimed
+// rewards turned into stake — is a conversion, not a loss.
 func (e *c34) wealth(ctx sdk.Context) []sdk.Coins {
 	var out []sdk.Coins
 	for i := 0; i < e.n; i++ {
-		out = append(out, e.w.app.BankKeeper.GetAllBalances(ctx, e.w.addrs[i]).Add(e.claims(ctx, e.w.addrs[i])...))
+		all := e.w.app.BankKeeper.GetAllBalances(ctx, e.w.addrs[i]).Add(e.claims(ctx, e.w.addrs[i])...)
+		norm := sdk.Coins{}
+		for _, c := range all {
+			if m := c34Share.FindStringSubmatch(c.Denom); m != nil {
+				norm = norm.Add(sdk.NewCoin(m[1], c.Amount))
+			} else {
+				norm = norm.Add(c)
+			}
+		}
+		out = append(out, norm)
 	}
 	return out
 }
+
+var c34Share = regexp.MustCompile(`^v[0-9]+/(.+)$`)
 
 // ---- C04 oracle
 func (e *c34) checkC04(ctx sdk.Context, where string) {
@@ -216,9 +231,10 @@ func runC34(r *Rec, prop string) {
 
 func c34History(r *Rec, prop string, h int, nBlocks int) {
 	const nAcc, nVal = 7, 2
-	w := NewWorld(WorldOpts{NAcc: nAcc, NVal: nVal, SudoAccs: []int{nAcc - 1}})
+	w := NewWorld(WorldOpts{NAcc: nAcc, NVal: nVal, SudoAccs: []int{nAcc - 1}, Balance: defaultBalance().Add(sdk.NewCoins(sdk.NewInt64Coin("xeth", 1_000_000_000), sdk.NewInt64Coin("ubtc", 1_000_000_000))...)})
 	app := w.app
 	A := w.addrs
+	registered := map[int]bool{}
 	e := &c34{r: r, w: w, prop: prop, n: nAcc, lab: fmt.Sprintf("history-%d", h)}
 	e.ms = mskeeper.NewMsgServerImpl(app.MultiStakingKeeper, app.BankKeeper, app.CustomGovKeeper, app.CustomStakingKeeper)
 	e.bs = basketkeeper.NewMsgServerImpl(app.BasketKeeper, app.CustomGovKeeper)
@@ -247,6 +263,26 @@ func c34History(r *Rec, prop string, h int, nBlocks int) {
 					return err
 				}
 				basketID = app.BasketKeeper.GetLastBasketId(ctx)
+				np := *app.CustomGovKeeper.GetNetworkProperties(ctx)
+				np.AutocompoundIntervalNumBlocks = 2
+				app.CustomGovKeeper.SetNetworkProperties(ctx, &np)
+				// two user-created spending pools sharing the one module account: 1 ukex per second to accounts 0,1 / 2,3
+				for pi, pn := range []string{"poola", "poolb"} {
+					msg := spendingtypes.NewMsgCreateSpendingPool(pn, 0, 0, sdk.NewDecCoins(sdk.NewDecCoin("ukex", sdk.NewInt(1))), sdk.NewDecWithPrec(33, 2), 60, 30,
+						spendingtypes.PermInfo{OwnerAccounts: []string{A[sudo].String()}},
+						spendingtypes.WeightedPermInfo{Accounts: []spendingtypes.WeightedAccount{{Account: A[2*pi].String(), Weight: sdk.NewDec(1)}, {Account: A[2*pi+1].String(), Weight: sdk.NewDec(1)}}},
+						A[sudo], false, 0)
+					msg.ClaimExpiry = 100000
+					if _, err := e.ss.CreateSpendingPool(sdk.WrapSDKContext(ctx), msg); err != nil {
+						return err
+					}
+					for _, who := range []int{2 * pi, 2*pi + 1} {
+						if _, err := e.ss.RegisterSpendingPoolBeneficiary(sdk.WrapSDKContext(ctx), &spendingtypes.MsgRegisterSpendingPoolBeneficiary{Sender: A[who].String(), PoolName: pn}); err != nil {
+							return err
+						}
+						registered[who] = true
+					}
+				}
 				for i := 0; i < nAcc-1; i++ {
 					app.CustomGovKeeper.RegisterIdentityRecords(ctx, A[i], []govtypes.IdentityInfoEntry{{Key: "nick", Info: fmt.Sprintf("n%d", i)}})
 				}
@@ -300,7 +336,13 @@ func c34History(r *Rec, prop string, h int, nBlocks int) {
 			s := r.Rng.Intn(nAcc - 1)
 			other := (s + 1 + r.Rng.Intn(nAcc-2)) % (nAcc - 1)
 			amt := int64(1 + r.Rng.Intn(200000))
-			switch x := r.Rng.Intn(100); {
+			x := r.Rng.Intn(100)
+			if x >= 54 && x < 60 {
+				x = 75 // more reward allocations
+			} else if x >= 31 && x < 35 {
+				x = 73 // more auto-compound settings
+			}
+			switch {
 			case x < 10:
 				ops = append(ops, c34Op{"bank-send", s, func(ctx sdk.Context) error {
 					_, err := e.bms.Send(sdk.WrapSDKContext(ctx), banktypes.NewMsgSend(A[s], A[other], ukex(amt)))
@@ -376,9 +418,91 @@ func c34History(r *Rec, prop string, h int, nBlocks int) {
 					return err
 				}})
 			case x < 72:
-				ops = append(ops, c34Op{"spending-deposit", s, func(ctx sdk.Context) error {
-					_, err := e.ss.DepositSpendingPool(sdk.WrapSDKContext(ctx), &spendingtypes.MsgDepositSpendingPool{Sender: A[s].String(), PoolName: "ValidatorBasicRewardsPool", Amount: ukex(amt)})
+				switch r.Rng.Intn(5) {
+				case 0, 1:
+					pool := []string{"ValidatorBasicRewardsPool", "poola", "poolb", "poolb"}[r.Rng.Intn(4)]
+					dep := amt
+					if pool == "poola" {
+						dep = 1 + amt%60 // poola stays poor: its beneficiaries are soon owed more than it holds
+					}
+					ops = append(ops, c34Op{"spending-deposit", s, func(ctx sdk.Context) error {
+						_, err := e.ss.DepositSpendingPool(sdk.WrapSDKContext(ctx), &spendingtypes.MsgDepositSpendingPool{Sender: A[s].String(), PoolName: pool, Amount: ukex(dep)})
+						return err
+					}})
+				case 2:
+					who := r.Rng.Intn(4)
+					if r.Rng.Intn(6) == 0 {
+						who = s
+					}
+					pool := []string{"poola", "poolb"}[who/2%2]
+					ops = append(ops, c34Op{"spending-register", who, func(ctx sdk.Context) error {
+						_, err := e.ss.RegisterSpendingPoolBeneficiary(sdk.WrapSDKContext(ctx), &spendingtypes.MsgRegisterSpendingPoolBeneficiary{Sender: A[who].String(), PoolName: pool})
+						if err == nil {
+							registered[who] = true
+						}
+						return err
+					}})
+				default:
+					who := r.Rng.Intn(4)
+					for try := 0; try < 4 && !registered[who]; try++ { // mostly somebody who registered
+						who = (who + 1) % 4
+					}
+					if r.Rng.Intn(8) == 0 {
+						who = s
+					}
+					pool := []string{"poola", "poolb"}[who/2%2]
+					if r.Rng.Intn(8) == 0 {
+						pool = []string{"poola", "poolb"}[1-who/2%2] // somebody else's pool
+					}
+					ops = append(ops, c34Op{"spending-claim", who, func(ctx sdk.Context) error {
+						_, err := e.ss.ClaimSpendingPool(sdk.WrapSDKContext(ctx), &spendingtypes.MsgClaimSpendingPool{Sender: A[who].String(), PoolName: pool})
+						return err
+					}})
+				}
+			case x < 74:
+				// auto-compound settings: all denoms, or a list that may hold a token that cannot be staked (xeth) or a
+				// staked one whose reward stays below its minimum
+				all := r.Rng.Intn(3) == 0
+				var ds []string
+				for _, d := range []string{"ukex", "xeth", "ubtc", "frozen"} {
+					if r.Rng.Intn(2) == 0 {
+						ds = append(ds, d)
+					}
+				}
+				ops = append(ops, c34Op{"set-compound", s, func(ctx sdk.Context) error {
+					_, err := e.ms.SetCompoundInfo(sdk.WrapSDKContext(ctx), &mstypes.MsgSetCompoundInfo{Sender: A[s].String(), AllDenom: all, CompoundDenoms: ds})
 					return err
+				}})
+			case x < 76:
+				// what BeginBlock's AllocateTokens does for the previous proposer's pool (the full block loop never gets
+				// there: the distributor's EndBlocker wipes the signing records, finding #5): rewards for a pool, paid out of
+				// fees. Nobody signs this: no account's coins or unclaimed rewards may shrink.
+				v := r.Rng.Intn(nVal)
+				rw := sdk.NewCoins(sdk.NewInt64Coin("ukex", amt))
+				if r.Rng.Intn(2) == 0 {
+					rw = rw.Add(sdk.NewInt64Coin("xeth", 1+amt/7))
+				}
+				if r.Rng.Intn(3) == 0 {
+					rw = rw.Add(sdk.NewInt64Coin("ubtc", 1+amt/11))
+				}
+				ops = append(ops, c34Op{"pool-rewards", sudo, func(ctx sdk.Context) error {
+					pool, found := app.MultiStakingKeeper.GetStakingPoolByValidator(ctx, sdk.ValAddress(A[v]).String())
+					if !found {
+						return fmt.Errorf("no pool")
+					}
+					_ = pool
+					if err := app.BankKeeper.SendCoinsFromAccountToModule(ctx, A[sudo], authtypes.FeeCollectorName, rw); err != nil {
+						return err
+					}
+					// signing records for the proposer inside the snapshot window (the block loop never leaves any), then the
+					// real AllocateTokens: fees → validator + pool rewards → auto-compound → treasury record
+					cons := sdk.ConsAddress(w.valPriv[v].PubKey().Address())
+					snap := app.DistrKeeper.GetSnapPeriod(ctx)
+					for j := int64(0); j < snap && ctx.BlockHeight()-j >= 1; j++ {
+						app.DistrKeeper.SetValidatorVote(ctx, cons, ctx.BlockHeight()-j)
+					}
+					app.DistrKeeper.AllocateTokens(ctx, 0, 0, cons, nil)
+					return nil
 				}})
 			case x < 78:
 				name := fmt.Sprintf("dapp%d%c", h, 'a'+rune(len(dapps)))
